@@ -434,7 +434,41 @@ func mutate(text []byte, rng *rand.Rand) []byte {
 	if len(t) == 0 {
 		return t
 	}
-	switch rng.Intn(5) {
+	switch rng.Intn(7) {
+	case 5: // turn a blank into a line break, or a line break into a blank (layouts the grammar may or may not permit)
+		var idx []int
+		for i, c := range t {
+			if c == ' ' || c == '\t' || c == '\n' {
+				idx = append(idx, i)
+			}
+		}
+		if len(idx) == 0 {
+			return t
+		}
+		i := idx[rng.Intn(len(idx))]
+		if t[i] == '\n' {
+			t[i] = ' '
+		} else {
+			t[i] = '\n'
+		}
+		return t
+	case 6: // insert a line break (LF or CRLF) after a punctuation character
+		var idx []int
+		for i, c := range t {
+			switch c {
+			case ',', ';', '[', ']', '{', '}', '(', ')', '=', '>', ':':
+				idx = append(idx, i+1)
+			}
+		}
+		if len(idx) == 0 {
+			return t
+		}
+		i := idx[rng.Intn(len(idx))]
+		nl := "\n"
+		if rng.Intn(3) == 0 {
+			nl = "\r\n"
+		}
+		return append(t[:i], append([]byte(nl), t[i:]...)...)
 	case 0: // truncate
 		return t[:rng.Intn(len(t))]
 	case 1: // delete a span
@@ -492,6 +526,34 @@ func readerFailures(texts [][]byte, perText int, rng *rand.Rand) {
 			continue
 		}
 		offs := map[int]bool{0: true, len(text) - 1: true}
+		if len(text) <= 400 {
+			// every failure offset of a short text
+			for k := 0; k < len(text); k++ {
+				offs[k] = true
+			}
+		} else {
+			// token boundaries are where a failure is most easily mistaken for the end of input: the offsets
+			// right after a blank, a line end or a closing brace
+			for k := 1; k < len(text); k++ {
+				switch text[k-1] {
+				case ' ', '\t', '\r':
+					// right after a skipped blank that follows a closing brace or a semicolon: always
+					j := k - 1
+					for j > 0 && (text[j] == ' ' || text[j] == '\t' || text[j] == '\r') {
+						j--
+					}
+					if text[j] == '}' || text[j] == ';' {
+						offs[k] = true
+					} else if rng.Intn(6) == 0 && len(offs) < 16*perText {
+						offs[k] = true
+					}
+				case '\n', '}', ';':
+					if rng.Intn(3) == 0 && len(offs) < 16*perText {
+						offs[k] = true
+					}
+				}
+			}
+		}
 		for len(offs) < perText && len(offs) < len(text) {
 			offs[rng.Intn(len(text))] = true
 		}
@@ -592,8 +654,9 @@ func main() {
 	}
 	// 5. reader failures at sampled offsets of valid texts
 	var valid [][]byte
-	for _, t := range pool {
-		if isASCII(t) && len(valid) < 60 {
+	// generated texts first (they carry CRLF line ends, trailing blanks and same-line layouts), then fixtures
+	for _, t := range append(append([][]byte(nil), genTexts[:min(len(genTexts), 40)]...), fx...) {
+		if isASCII(t) && len(valid) < 70 {
 			valid = append(valid, t)
 		}
 	}
